@@ -26,12 +26,15 @@ pub struct Cell {
 }
 
 /// irb2400 with small cubes on the link origins, an axial tool, a base block and one obstacle box
-pub fn cell(obstacle: Option<WBox>, safety_um: i64) -> Cell {
+pub fn cell(obstacle: Option<WBox>, safety_um: i64) -> Cell { cell_with(obstacle, safety_um, 6.0, false) }
+
+/// `j6_limit`: joint 6 may turn +- this many radians; `wide`: generous J2/J3/J5 ranges (more landing strategies)
+pub fn cell_with(obstacle: Option<WBox>, safety_um: i64, j6_limit: f64, wide: bool) -> Cell {
     let p = Parameters::irb2400_10();
     let tool_iso = Iso { r: oracle::I3, t: [0.0, 0.0, 0.15] };
     let base_iso = Iso::identity();
-    let from: Joints = [-3.0, -1.7, -1.0, -3.4, -2.0, -6.0];
-    let to: Joints = [3.0, 1.9, 1.1, 3.4, 2.0, 6.0];
+    let from: Joints = if wide { [-3.1, -2.6, -3.0, -3.4, -2.4, -j6_limit] } else { [-3.0, -1.7, -1.0, -3.4, -2.0, -j6_limit] };
+    let to: Joints = if wide { [3.1, 2.6, 3.0, 3.4, 2.4, j6_limit] } else { [3.0, 1.9, 1.1, 3.4, 2.0, j6_limit] };
     let reference = Robot::new(p, vec![LayerF::Tool(tool_iso), LayerF::Base(base_iso)], Some((from, to, 0.0)));
     let home: Joints = [0.0, 0.2, 0.1, 0.0, 0.9, 0.0];
     let links = reference.kin.forward_with_joint_poses(&home);
@@ -40,6 +43,12 @@ pub fn cell(obstacle: Option<WBox>, safety_um: i64) -> Cell {
         let o = links[i].translation.vector;
         let idx = sc.idx(i);
         sc.boxes[idx] = WBox { c: [o.x, o.y, o.z + 0.001 * i as f64], h: [0.03, 0.03, 0.03] };
+    }
+    if wide {
+        // an off-axis body on link 4 (a cable guide beside the forearm): the wrist-flipped twin carries it on the other side
+        let idx = sc.idx(3);
+        let o = links[3] * nalgebra::Point3::new(0.0, 0.10, 0.15);
+        sc.boxes[idx] = WBox { c: [o.x, o.y, o.z], h: [0.03, 0.03, 0.03] };
     }
     let tip = links[5] * nalgebra::Point3::new(0.0, 0.0, 0.09);
     let it = sc.idx(TOOL);
@@ -66,6 +75,62 @@ pub fn cell(obstacle: Option<WBox>, safety_um: i64) -> Cell {
 fn down_pose(x: f64, y: f64, z: f64, yaw: f64) -> Pose {
     let rot = nalgebra::UnitQuaternion::from_axis_angle(&nalgebra::Vector3::z_axis(), yaw) * nalgebra::UnitQuaternion::from_axis_angle(&nalgebra::Vector3::y_axis(), std::f64::consts::PI);
     Pose::from_parts(nalgebra::Translation3::new(x, y, z), rot)
+}
+
+/// Find an obstacle box that the landing strategy closest to the start configuration hits late on the stroke (and
+/// nowhere near the landing), while some other strategy follows the whole stroke without touching it.
+fn branch_blocker(land: &Pose, steps: &[Pose], park: &Pose) -> Option<WBox> {
+    let c0 = cell_with(None, 0, 6.0, true);
+    let strategies = c0.kws.inverse_continuing(land, &c0.home);
+    if std::env::var("VERIF_DEBUG").is_ok() { eprintln!("branch_blocker: {} strategies", strategies.len()); }
+    if strategies.len() < 2 { return None; }
+    // dense poses along land -> steps -> park
+    let mut keys: Vec<Pose> = vec![*land];
+    keys.extend(steps.iter().cloned());
+    keys.push(*park);
+    let mut dense: Vec<Pose> = Vec::new();
+    for w in keys.windows(2) {
+        for i in 0..10 {
+            let f = i as f64 / 10.0;
+            dense.push(Pose::from_parts(nalgebra::Translation3::from(w[0].translation.vector.lerp(&w[1].translation.vector, f)), w[0].rotation.slerp(&w[1].rotation, f)));
+        }
+    }
+    dense.push(*park);
+    let follow = |start: &Joints| -> Option<Vec<Joints>> {
+        let mut v = vec![*start];
+        for p in &dense {
+            let s = c0.kws.kinematics.inverse_continuing(p, v.last().unwrap());
+            let next = *s.first()?;
+            if transition_costs(v.last().unwrap(), &next, &DEFAULT_TRANSITION_COSTS) > 0.3 { return None; }
+            v.push(next);
+        }
+        Some(v)
+    };
+    let ta = follow(&strategies[0]);
+    if std::env::var("VERIF_DEBUG").is_ok() { eprintln!("branch_blocker: A follows: {}", ta.is_some()); }
+    let ta = ta?;
+    for sb in strategies.iter().skip(1) {
+        let tb = follow(sb);
+        if std::env::var("VERIF_DEBUG").is_ok() { eprintln!("branch_blocker: B {:?} follows: {}", sb, tb.is_some()); }
+        let Some(tb) = tb else { continue; };
+        // candidate: where link 3 / link 4 of strategy A is at 80 % of the stroke
+        let qa = ta[ta.len() * 8 / 10];
+        let la = c0.kws.kinematics.forward_with_joint_poses(&qa);
+        // the two strategies must differ in the arm posture there (not just a wrist flip)
+        let qb = tb[tb.len() * 8 / 10];
+        if (0..4).all(|j| (qa[j] - qb[j]).abs() < 0.2) { continue; }
+        for li in [3usize, 2, 1] {
+            // (the body of link 4 sits off its axis, see cell_with)
+            let o = if li == 3 { (la[3] * nalgebra::Point3::new(0.0, 0.10, 0.15)).coords } else { la[li].translation.vector };
+            let b = WBox { c: [o.x, o.y, o.z], h: [0.035, 0.035, 0.035] };
+            let c1 = cell_with(Some(b), 0, 6.0, true);
+            let a_hits_late = c1.kws.collides(&qa);
+            let a_free_early = ta.iter().take(ta.len() / 3).all(|q| !c1.kws.collides(q));
+            let b_free = tb.iter().all(|q| !c1.kws.collides(q));
+            if a_hits_late && a_free_early && b_free && !c1.kws.collides(&c1.home) { return Some(b); }
+        }
+    }
+    None
 }
 
 fn flag_names(f: &PathFlags) -> Vec<&'static str> {
@@ -96,31 +161,47 @@ pub fn record(output: &str) {
     let pools: Vec<usize> = if thorough() { vec![1, 2, 8, 16] } else { vec![1, 8] };
     let reps = if thorough() { 2 } else { 1 };
     for k in 0..n_cases {
-        let obstacle_class = ["free", "blocking", "grazing", "at-stroke-pose"][k % 4];
+        let obstacle_class = ["free", "blocking", "grazing", "at-stroke-pose", "wrist-flip", "branch-blocking"][k % 6];
         let y0 = r.gen_range(-0.25..-0.1);
         let y1 = r.gen_range(0.1..0.25);
         let x = r.gen_range(0.85..1.0);
         let z = r.gen_range(0.55..0.75);
         let yaw = if k % 2 == 0 { 0.0 } else { r.gen_range(-0.5..0.5) };
-        let obstacle = match obstacle_class {
+        let obstacle: Option<WBox> = match obstacle_class {
             "blocking" => Some(WBox { c: [x, (y0 + y1) / 2.0, z + 0.03], h: [0.04, 0.03, 0.04] }),   // on the path of the tool body
             "grazing" => Some(WBox { c: [x, (y0 + y1) / 2.0, z - 0.16], h: [0.04, 0.03, 0.04] }),    // below the tool tip path
             // a thin plate exactly at the second stroke pose: only that pose (not its interpolated neighbours, which are
             // a whole check step away) touches it
-            "at-stroke-pose" => Some(WBox { c: [x, y0 + (y1 - y0) / (2 + k % 3 - 1) as f64, z + 0.03], h: [0.04, 0.002, 0.04] }),
+            "at-stroke-pose" => Some(WBox { c: [x, (y0 + y1) / 2.0, z + 0.03], h: [0.04, 0.002, 0.04] }),   // 3 stroke poses: the middle one
             _ => None,
         };
-        let cell = cell(obstacle, if k % 4 == 3 { 10_000 } else { 0 });
-        let nsteps = 2 + k % 3;
-        let steps: Vec<Pose> = (0..nsteps).map(|i| down_pose(x, y0 + (y1 - y0) * i as f64 / (nsteps - 1) as f64, z, yaw)).collect();
+        let mut nsteps = if obstacle_class == "at-stroke-pose" { 3 } else { 2 + k % 3 };
+        let mut steps: Vec<Pose> = (0..nsteps).map(|i| down_pose(x, y0 + (y1 - y0) * i as f64 / (nsteps - 1) as f64, z, yaw)).collect();
         let land = down_pose(x, y0, z + 0.1, yaw);
-        let park = down_pose(x, y1, z + 0.1, yaw);
+        let mut park = down_pose(x, y1, z + 0.1, yaw);
+        let mut obstacle = obstacle;
+        let mut j6_limit = 6.0;
+        if obstacle_class == "wrist-flip" {
+            // the tool spins by 430 degrees along the stroke while joint 6 may only turn +-137 degrees: somewhere in
+            // the middle of the stroke the wrist has to flip, which no Cartesian transition can do (RRT closes the gap)
+            nsteps = 5;
+            steps = (0..5).map(|i| down_pose(x, y0 + (y1 - y0) * i as f64 / 4.0, z, [0.0, 1.9, 3.8, 5.7, 7.5][i])).collect();
+            park = down_pose(x, y1, z + 0.1, 7.5);
+            j6_limit = 2.4;     // (limits are modular: a range of a full turn or more would never force a flip)
+        }
+        if obstacle_class == "branch-blocking" {
+            // an obstacle that only the strategy closest to the start hits, late on the stroke; another strategy is clean
+            obstacle = branch_blocker(&land, &steps, &park);
+            if obstacle.is_none() { continue; }
+        }
+        let cell = cell_with(obstacle, if k % 4 == 3 { 10_000 } else { 0 }, j6_limit, obstacle_class == "branch-blocking");
         let include = k % 2 == 0;
         let max_cost = if obstacle_class == "at-stroke-pose" { 25.0f64.to_radians() } else { [6.0f64, 12.0, 3.0][k % 3].to_radians() };
         // transition coefficients: the defaults, or a configuration that weighs some joints much more
         let coeffs: Joints = match k % 3 { 0 => DEFAULT_TRANSITION_COSTS, 1 => [3.0, 2.5, 2.5, 0.9, 0.9, 3.5], _ => [2.4, 2.2, 2.2, 1.8, 1.8, 1.6] };
         let mut outcomes: Vec<bool> = Vec::new();
         let mut any_rrt = false;
+        let (pools, reps) = if obstacle_class == "branch-blocking" { (vec![1usize, 2, 4, 16], 2) } else { (pools.clone(), reps) };
         for &pool in &pools {
             for rep in 0..reps {
                 let planner = Cartesian {
@@ -144,7 +225,8 @@ pub fn record(output: &str) {
                         match v["kind"].as_str().unwrap_or("") { "direct" => wins[0] += 1, "bisect" => wins[1] += 1, "rrt" => wins[2] += 1, _ => {} }
                     }
                 }
-                if wins[2] > 0 { any_rrt = true; }
+                // (random re-planning is "needed" when the RETURNED plan contains an RRT-closed window; windows of other,
+                //  failing strategies do not count)
                 let head = json!({"ev": "plan", "case": k, "pool": pool, "rep": rep, "obstacle": obstacle_class, "include": include, "nsteps": nsteps,
                     "windows": {"direct": wins[0], "bisect": wins[1], "rrt": wins[2]}, "max_cost_au": rad2au(max_cost)});
                 let mut h = head.clone();
@@ -154,6 +236,8 @@ pub fn record(output: &str) {
                     Some(Ok(path)) => {
                         h["outcome"] = json!("ok");
                         h["len"] = json!(path.len());
+                        let seen_land = path.iter().position(|w| w.flags.contains(PathFlags::LAND)).unwrap_or(0);
+                        if path.iter().skip(seen_land + 1).any(|w| flag_names(&w.flags).is_empty()) { any_rrt = true; }
                         out.put(h);
                         outcomes.push(true);
                         // originals in order: land, steps.., park
